@@ -25,7 +25,7 @@ def post_merge(counters, extra):
 
 
 def plan(tier, seed):
-    return sb.plan(tier, seed, per_shard_quick=10, per_shard_thorough=300)
+    return sb.plan(tier, seed, per_shard_quick=25, per_shard_thorough=1500)
 
 
 def config_fn(rng):
